@@ -578,7 +578,7 @@ func exec(line string, st *hx.Stats) string {
 			rq.batch = append(rq.batch, fga.Req{Obj: "doc:1", Rel: rels[(variant+i)%len(rels)], User: users[i%len(users)]})
 		}
 		if family == "wide" {
-			repeats = 3
+			repeats = 2
 		}
 	}
 	dataKey := fmt.Sprintf("%s/%d/%d", family, p1, p2)
@@ -822,11 +822,11 @@ func craftedRes(bigEnc string) []string {
 	for _, cfg := range []string{"v1", "v2"} {
 		// a sorted read that ENDS on a duplicate object; nobody has access, so every iterator is drained
 		for _, rel := range []string{"viewer", "viag"} {
-			out = append(out, resLine(cfg, next(), "-", "check", 8, "none", 0, end, rel, "user:anne"))
-			out = append(out, resLine(cfg, next(), "-", "check", 8, "none", 0, ctxEnd, rel, "user:anne"))
+			out = append(out, resLine(cfg, next(), "-", "check", 6, "none", 0, end, rel, "user:anne"))
+			out = append(out, resLine(cfg, next(), "-", "check", 6, "none", 0, ctxEnd, rel, "user:anne"))
 		}
-		out = append(out, resLine(cfg, next(), "-", "check", 4, "none", 0, end, "tviewer", "user:anne"))
-		out = append(out, resLine(cfg, next(), "-", "batch", 3, "none", 0, end, "mix", "user:anne"))
+		out = append(out, resLine(cfg, next(), "-", "check", 3, "none", 0, end, "tviewer", "user:anne"))
+		out = append(out, resLine(cfg, next(), "-", "batch", 2, "none", 0, end, "mix", "user:anne"))
 	}
 	// collectors that stop reading at max-results while the expansion has many more results
 	for _, rel := range []string{"both", "either", "minus", "mix"} {
@@ -834,7 +834,7 @@ func craftedRes(bigEnc string) []string {
 	}
 	out = append(out, resLine("cut", next(), "-", "listobjects", 2, "none", 0, hit, "mix", "user:anne"))
 	// a fault in the middle of a streamed read
-	for _, f := range []string{"err1", "err2", "cancel2", "err3"} {
+	for _, f := range []string{"err1", "err2", "cancel2"} {
 		out = append(out, resLine("v1", next(), f, "expand", 1, "none", 0, base, "via", "user:anne"))
 		out = append(out, resLine("v1", next(), f, "expand", 1, "none", 0, base, "mix", "user:anne"))
 		out = append(out, resLine("v1", next(), f, "check", 2, "none", 0, base, "via", "user:anne"))
@@ -862,9 +862,9 @@ func genRes(c *hx.Rand, cfgs []string) (string, string) {
 	if c.Chance(2, 5) {
 		fault = hx.Pick(c, []string{"err", "err", "cancel"}) + strconv.Itoa(1+c.Intn(5))
 	}
-	repeats := 2
+	repeats := 1
 	if rpc == "check" && fault == "-" {
-		repeats = 6
+		repeats = 4
 	}
 	mode, ms := "none", 0
 	if c.Chance(1, 4) {
